@@ -91,7 +91,9 @@ def nonfinite(c):
         if c["imm"] is not None:
             rows += [(f"inverse mass matrix #{i}", o) for i, o in enumerate(c["imm"])]
     for what, o in rows:
-        for v in o:
+        for j, v in enumerate(o):
+            if c["kind"] == "single" and j == 0 and v == math.inf:
+                continue        # float overflow of exp: judged against the predicted overflow by the oracle
             if math.isnan(v) or math.isinf(v):
                 return f"{what} is not finite: {o}"
     for what, o in rows:
@@ -129,6 +131,8 @@ def tols(o, tol):
 def step_scale(v):
     """the step size is exp(x): a relative tolerance, scaled by the size of x (rounding of x is absolute)"""
     v = abs(v)
+    if math.isinf(v):
+        return Fraction(0)
     return Fraction(v) * (1 + math.ceil(abs(math.log(v)))) if v > 0 else Fraction(0)
 
 
@@ -154,7 +158,15 @@ def py_step(c, p, a, tie):
     es = p[1] + (delta - a)
     x = p[3] - math.sqrt(t) / (gamma * (t + t0)) * es
     eta = t ** (-kappa)
-    return [math.exp(x), es, (1 - eta) * p[2] + eta * x, p[3]]
+    return [safe_exp(x), es, (1 - eta) * p[2] + eta * x, p[3]]
+
+
+def safe_exp(x):
+    """exp in float64 with IEEE overflow to +inf (math.exp raises instead)"""
+    try:
+        return math.exp(x)
+    except OverflowError:
+        return math.inf
 
 
 class Stan:
@@ -185,6 +197,10 @@ def cmp4(got, want, tol, what):
     """None or a message; step relative, the other fields absolute * (1+|v|)"""
     names = ["step_size", "error_sum", "log_avg_step_size", "mu"]
     for i, (g, w) in enumerate(zip(got, want)):
+        if g == w:
+            continue
+        if math.isinf(w) or math.isinf(g):
+            return f"{what}: {names[i]} = {g!r} but dual averaging gives {w!r}"
         lim = tol * float(step_scale(w)) if i == 0 else tol * (1 + abs(w))
         if not abs(g - w) <= lim:
             return f"{what}: {names[i]} = {g!r} but dual averaging gives {w!r} (|diff| {abs(g - w):.3e} > {lim:.3e})"
@@ -313,7 +329,15 @@ def run_engine(spec):
     scale = jnp.array([0.5, 1.5, 1.0], dtype=jnp.float32)
 
     def logp(st):
-        return sum(-0.5 * jnp.sum(((st[f"p{i}"] - 0.25 * i) / scale) ** 2) for i in range(len(kernels)))
+        # Gaussian blocks; for the mh_step based kernels the log-probability is NaN where p[0] <= -1.5, so that
+        # adaptation also sees transitions with error code 90 (reported acceptance probability 0)
+        out = 0.0
+        for i, ksp in enumerate(kernels):
+            p = st[f"p{i}"]
+            out = out - 0.5 * jnp.sum(((p - 0.25 * i) / scale) ** 2)
+            if ksp["kernel"] in ("RW", "MH1", "MH0", "IWLS"):
+                out = out + 0.0 * jnp.log(p[0] + 1.5)
+        return out
 
     b = gs.EngineBuilder(seed=spec["seed"], num_chains=spec["nchains"])
     b.show_progress = False
@@ -337,6 +361,7 @@ def run_engine(spec):
     out = []
     for ki, (ksp, kst, ti) in enumerate(zip(kernels, ksts, tis)):
         acc = np.asarray(ti.acceptance_prob)
+        err = np.asarray(ti.error_code)
         f4 = [np.asarray(kst.step_size), np.asarray(kst.error_sum), np.asarray(kst.log_avg_step_size), np.asarray(kst.mu)]
         imm = np.asarray(kst.inverse_mass_matrix) if hasattr(kst, "inverse_mass_matrix") else None
         for ch in range(spec["nchains"]):
@@ -345,7 +370,7 @@ def run_engine(spec):
             dtypes = sorted({str(f.dtype) for f in f4})
             case = {"kind": "engine", "spec": spec, "kidx": ki, "kernel": ksp["kernel"], "consts": ksp["consts"],
                     "s0": ksp["s0"], "sched": spec["sched"], "chain": ch, "states": states,
-                    "accs": [fin(a) for a in acc[ch]], "dtypes": dtypes,
+                    "accs": [fin(a) for a in acc[ch]], "errs": [int(e) for e in err[ch]], "dtypes": dtypes,
                     "imm": [[float(v) for v in imm[ch, i].ravel()] for i in range(T + 1)] if imm is not None else None}
             out.append(case)
     return out
@@ -419,6 +444,22 @@ def gen_single(rnd, tie, idx=0, equal=False):
             "a": a, "a2": a2, "tie": tie, "tie_array": idx % 2 == 1}
 
 
+DBL_LOG_MAX = 709.78
+
+
+def gen_single_overflow(rnd, idx):
+    """twin across the float64 overflow boundary of exp: the lower acceptance probability gives a huge
+    finite step size, the higher one overflows to +inf (which is still 'not smaller')"""
+    c = [[0.8, 0.05, 0.75, 10.0], [0.234, 0.05, 0.75, 10.0], [0.5, 0.125, 0.5, 3.0]][idx % 3]
+    tie = idx % 4
+    t = tie + 1
+    k = math.sqrt(t) / (c[1] * (c[3] + t))
+    a, a2 = 0.0, 1.0
+    mu = round((DBL_LOG_MAX - k / 2 + c[0] * k) * 64) / 64        # ls(a) = boundary - k/2, ls(a2) = boundary + k/2
+    return {"kind": "single", "cls": STATE_CLASSES[idx % 4], "consts": c, "prev": [1.0, 0.0, 3.0, mu],
+            "a": a, "a2": a2, "tie": tie, "tie_array": idx % 2 == 1, "overflow": True}
+
+
 def gen_sched(rnd, quick, shape):
     d = lambda lo, hi: rnd.randint(lo, hi)
     if shape == 0:      # the usual warm-up shape: fast, slow, slow, fast, posterior twice
@@ -456,6 +497,8 @@ def generate(ctx):
     for i in range(nsingle):
         tie = [0, 1, 2, 7, 30, 99, 250][i % 7] if i % 3 == 0 else rnd.randint(0, 60)
         cases.append(gen_single(rnd, tie, i, equal=(i % 10 == 9)))
+    for i in range(3 if quick else 12):
+        cases.append(gen_single_overflow(rnd, i))
     import time
     t_0 = time.time()
     for c in cases:
@@ -493,12 +536,17 @@ def generate(ctx):
         elif c["kind"] == "single":
             ctx.hist("single.time_in_epoch=" + ("0" if c["tie"] == 0 else "1-9" if c["tie"] < 10 else "10-99" if c["tie"] < 100 else ">=100"))
             ctx.hist("single.twin_equal_acceptance" if c["a"] == c["a2"] else "single.twin_higher_acceptance")
+            if c.get("overflow"):
+                ctx.hist("single.twin_across_float64_overflow_of_exp")
             nontrivial.add(("s", tuple(c["consts"]), tuple(c["prev"]), c["a"], c["tie"]))
         else:
             ctx.hist(f"engine.kernel={c['kernel']}")
             for (t, idxs) in epochs_of(c):
                 ctx.hist(f"engine.transitions.{ETY[t]}", len(idxs))
             ctx.hist("engine.dtypes=" + ",".join(c["dtypes"]))
+            for (t, idxs) in epochs_of(c):
+                if t in (1, 2):
+                    ctx.hist(f"engine.adaptive_transitions_with_error_code.{c['kernel']}", sum(1 for i in idxs if c["errs"][i - 1] != 0))
             nontrivial.add(("e", c["kernel"], tuple(c["consts"]), tuple(map(tuple, c["sched"])), tuple(c["accs"])))
     ncalls = sum(len(c["accs"]) + 2 if c["kind"] == "direct" else 2 if c["kind"] == "single" else len(c["accs"]) for c in cases)
     ctx.count(ncalls, len(nontrivial))
@@ -535,6 +583,8 @@ def margins(cases):
             continue
         for (got, want, tol, kind) in steps:
             for i, (g, w) in enumerate(zip(got, want)):
+                if g == w or math.isinf(w) or math.isinf(g):
+                    continue
                 lim = float(tol) * (float(step_scale(w)) if i == 0 else 1 + abs(w))
                 if lim > 0:
                     worst[kind] = max(worst[kind], abs(g - w) / lim)
@@ -609,6 +659,9 @@ def _oracle(c):
         if r:
             return r
     elif c["kind"] == "single":
+        for a, o in ((c["a"], c["obs"]), (c["a2"], c["obs2"])):
+            if o[0] == math.inf and py_step(c["consts"], c["prev"], a, c["tie"])[0] != math.inf:
+                return f"da_step (acceptance {a}): step size overflowed to inf although dual averaging gives a finite value" + _context(c)
         if c["a2"] >= c["a"] and not c["obs2"][0] >= c["obs"][0]:
             return (f"higher acceptance probability {c['a2']} gives a SMALLER step size {c['obs2'][0]!r} than "
                     f"{c['a']} does ({c['obs'][0]!r})")
@@ -703,6 +756,11 @@ def lemmas_of(ci, c):
         cc = dclit(c["consts"])
         for nm, a, o in (("a", c["a"], c["obs"]), ("b", c["a2"], c["obs2"])):
             t = tols(o, TOL64)
+            if o[0] == math.inf:
+                import sys
+                out.append((f"c{ci}_one{nm}", f"over_ok {cc} {dalit(c['prev'])} {rlit(a)} {natlit(c['tie'])} {dalit([0.0] + o[1:])} "
+                                              f"{rlit(Fraction(sys.float_info.max))} {rlit(t[1])} {rlit(t[2])}"))
+                continue
             out.append((f"c{ci}_one{nm}", f"step_ok {cc} {dalit(c['prev'])} {rlit(a)} {natlit(c['tie'])} {dalit(o)} "
                                           f"{rlit(t[0])} {rlit(t[1])} {rlit(t[2])}"))
     else:
